@@ -4,6 +4,7 @@ set -e
 cd "$(dirname "$0")"
 export RUST_BACKTRACE=0 CARGO_NET_OFFLINE=true
 mkdir -p target evidence/.tmp replays
+./certs/gen.sh
 cp -n /repo/Cargo.lock harness/Cargo.lock 2>/dev/null || true
 (cd harness && RUSTFLAGS="--cfg ldap3_verif --cfg tokio_unstable" cargo build --offline --profile verif --bin vcheck 2>&1 | tail -3)
 test -x target/verif/vcheck
